@@ -22,7 +22,7 @@ EXC_KINDS = ("SerialException", "SerialTimeoutException", "PortNotOpenError", "O
 # (what pyserial back ends raise, plus RuntimeError, which the library's own except clauses
 # name among the serial I/O exceptions)
 FAULTS = Profile(write_exc=EXC_KINDS, read_exc=EXC_KINDS,
-                 latency=(0, 1, 26), content=("err", "nameerr", "wrong", "sibling", "cut"), silent=True,
+                 latency=(0, 1, 26), content=("err", "nameerr", "wrong", "sibling", "cut", "longerr"), silent=True,
                  read_window=2)
 
 CONNECT_ENVS = ("ok", "nonebb", "openfail", "silent", "oldfw", "versionless", "missingname",
